@@ -16,7 +16,7 @@ func init() {
 		RealParts:  []string{"neat/genetics population, species, epoch executors, mutators and their innovation lookup", "Population counters and innovation list (real), read through the public Innovations() accessor"},
 		StubParts:  []string{"fitness assignment", "reference innovation registry for the twin-mutation probes", "goroutine choice for parallel-executor worlds (function check only there)"},
 		Assumes:    []string{"'identical innovations get identical numbers' is demanded of the sequential executor only, as the property says"},
-		ProbeNames: []string{"probe.new_innovation_generation", "probe.same_link_innovation_twice", "probe.same_split_twice", "probe.twin.addnode_reused", "probe.twin.addlink_reused", "probe.nearmiss.not_reused", "probe.random_world", "probe.readback_world"},
+		ProbeNames: []string{"probe.new_innovation_generation", "probe.same_link_innovation_twice", "probe.same_split_twice", "probe.twin.addnode_reused", "probe.twin.addlink_reused", "probe.nearmiss.not_reused", "probe.random_world", "probe.readback_world", "probe.checkpoint_restore"},
 	})
 }
 
@@ -162,6 +162,24 @@ func scenarioC03(c *RunCtx) {
 		}
 		if t.Chance("twin-probe", 1, 3) {
 			twinProbe(c, w, ledger)
+		}
+		if e > 0 && t.Chance("checkpoint", 1, 6) {
+			// save / restore in mid-run: the counters of the restored population must start above everything the
+			// saved genomes hold, whichever genome holds the maximum
+			var cerr error
+			c.LibSoft("checkpoint", func() { cerr = w.Checkpoint() })
+			if cerr != nil {
+				c.Skip("checkpoint-error")
+			}
+			c.Count("probe.checkpoint_restore")
+			c.Op("checkpoint: population written and read back before epoch %d", e)
+			// The saved form holds the living genomes only: numbers and ids that only extinct organisms carried are
+			// unknown to the restored population and may legitimately be issued again. Its history starts here.
+			ledger = NewInnovLedger()
+			if inv, d := ledger.AddPopulation(w.Pop, fmt.Sprintf("world [start=%s] after the restore before generation %d", w.KindName, e)); inv != "" {
+				c.Fail(inv, "%s", d)
+			}
+			prevMaxInnov, prevMaxNode = ledger.MaxInnov, ledger.MaxNode
 		}
 		snap := StepEpoch(c, w, false, nil, c.LibSoft)
 		c.Steps++
